@@ -247,6 +247,26 @@ reg('C04', 'exploration',
     'the documented group semantics (C02/C03); single OpenMP thread; '
     'one_timestep restricted to calls the documentation lists.')
 
+reg('C14', 'exploration',
+    'reference-model monitor: the real Interpolator / SPHEvaluator driven '
+    'through random histories (interpolate, new target points, new source '
+    'arrays, moved particles + update); every returned field compared with '
+    'the defining sums computed by brute force in numpy over all source '
+    'particles and periodic images, plus the characteristic guarantees of '
+    'Shepard (constants, convex hull, empty neighbourhoods) and order1 '
+    '(linear fields and gradients where the moment system is well '
+    'conditioned)',
+    'Held on every history explored after the fix: per quick run 80 '
+    'Interpolator histories (all five methods x kernels x 1-3 dimensions x '
+    '1-3 arrays with variable h, m, rho; explicit points and automatic '
+    'grids; periodic domains) and 8 SPHEvaluator histories, ~500 '
+    'interpolations / ~20000 points.  Found and fixed in /repo: order1 in '
+    '3-d returned wrong results from the second interpolate() call on.',
+    'Kernel values from the Python kernel classes (C08); the convex-hull '
+    'guarantee is only asserted where no kernel weight is negative '
+    '(SuperGaussian has a negative lobe); a linear field is not periodic, '
+    'so order1 in periodic domains is checked on constants only.')
+
 _pending = {
 }
 for _i in range(1, 21):
